@@ -26,7 +26,7 @@ func (tdLiveStream) Name() string               { return "tdlive" }
 func (tdLiveStream) CaseTimeout() time.Duration { return 60 * time.Second }
 func (tdLiveStream) NoModel() bool              { return true }
 func (tdLiveStream) Rule() string {
-	return "a test directory started with testdirectory.Start: defaults given in one WithDefaults call or split over two (users in one, AllowAnonymousBind in the other, either order), optionally re-configured through SetUsers / SetAllowAnonymousBind after the start; transports plain / TLS / mutual TLS / StartTLS on a plain listener; a real go-ldap client performs the simple bind (empty passwords included); user sets, DNs and passwords as in tdbind; oracle: success iff (password empty and anonymous allowed) or some user entry has exactly that DN and its first password value equals the password, else invalidCredentials; non-trivial = at least one user with the bind DN, distinct by case"
+	return "a test directory started with testdirectory.Start: defaults given in one WithDefaults call or split over two (users in one, AllowAnonymousBind in the other, either order), optionally re-configured through SetUsers / SetAllowAnonymousBind after the start; optionally with a history before the judged bind (an earlier bind, then the password replaced / the user deleted / a user added over LDAP); transports plain / TLS / mutual TLS / StartTLS on a plain listener; a real go-ldap client performs the simple bind (empty passwords included); user sets, DNs and passwords as in tdbind; oracle: success iff (password empty and anonymous allowed) or some user entry has exactly that DN and its first password value equals the password, else invalidCredentials; non-trivial = at least one user with the bind DN, distinct by case"
 }
 
 func (tdLiveStream) Generate(rng *rand.Rand, n int, thorough bool) []Case {
@@ -50,8 +50,71 @@ func (tdLiveStream) Generate(rng *rand.Rand, n int, thorough bool) []Case {
 		if rng.Intn(3) == 0 {
 			pw = ""
 		}
-		cs = append(cs, Case{Line: fmt.Sprintf("tdlive anon=%d users=%s %s %s compose=%s late=%d transport=%s", rng.Intn(2), entriesDesc(us), hx([]byte(dn)), hx([]byte(pw)),
-			[]string{"single", "anon-first", "users-first"}[rng.Intn(3)], rng.Intn(2), []string{"plain", "tls", "mtls", "starttls"}[rng.Intn(4)]), Kind: "bind"})
+		// a history before the bind that is judged: an earlier bind, then a change of the entries made over LDAP
+		// (the password replaced, the user deleted, a user added), then the bind
+		hist := "none"
+		unambiguous := func(d string) (exact bool, hits int) {
+			for _, u := range us {
+				if u.DN == d {
+					exact = true
+				}
+				if strings.Contains(strings.ToLower(u.DN), strings.ToLower(d)) || (u.DN != "" && strings.Contains(strings.ToLower(d), strings.ToLower(u.DN))) {
+					hits++ // the modify and delete handlers find their target by substring: it has to be unambiguous
+				}
+			}
+			if d == "" || strings.ContainsAny(d, "()*\\\x00") {
+				hits = 99
+			}
+			return
+		}
+		if rng.Intn(3) == 0 {
+			// pick the target among the users that can be addressed unambiguously
+			var cand []tdEntry
+			for _, u := range us {
+				if ex, h := unambiguous(u.DN); ex && h == 1 {
+					cand = append(cand, u)
+				}
+			}
+			if len(cand) > 0 && rng.Intn(4) != 0 {
+				u := cand[rng.Intn(len(cand))]
+				dn = u.DN
+				if rng.Intn(2) == 0 {
+					for _, a := range u.Attrs {
+						if a.Type == "password" && len(a.Vals) > 0 {
+							pw = a.Vals[0]
+							break
+						}
+					}
+				}
+				hist = []string{"modpw", "modpw", "del"}[rng.Intn(3)]
+			} else {
+				d := fmt.Sprintf("cn=new%d,%s", rng.Intn(100), testdirectory.DefaultUserDN)
+				if _, h := unambiguous(d); h == 0 {
+					dn, hist = d, "add"
+					if pw == "" {
+						pw = "secret"
+					}
+				}
+			}
+		}
+		if hist == "modpw" {
+			// the old password (must no longer work when the attribute was replaced), the new one as sent, or the new one
+			// in the form the directory stores it
+			old := pw
+			for _, u := range us {
+				if u.DN == dn {
+					for _, a := range u.Attrs {
+						if a.Type == "password" && len(a.Vals) > 0 {
+							old = a.Vals[0]
+							break
+						}
+					}
+				}
+			}
+			pw = []string{old, old, "newpw", wrapOctet("newpw"), wrapOctet("newpw")}[rng.Intn(5)]
+		}
+		cs = append(cs, Case{Line: fmt.Sprintf("tdlive anon=%d users=%s %s %s compose=%s late=%d transport=%s hist=%s", rng.Intn(2), entriesDesc(us), hx([]byte(dn)), hx([]byte(pw)),
+			[]string{"single", "anon-first", "users-first"}[rng.Intn(3)], rng.Intn(2), []string{"plain", "tls", "mtls", "starttls"}[rng.Intn(4)], hist), Kind: "bind"})
 	}
 	return cs
 }
@@ -114,6 +177,25 @@ func (tdLiveStream) Impl(c Case) string {
 	}
 	defer conn.Close()
 	conn.SetTimeout(10 * time.Second)
+	if h := p["hist"]; h != "" && h != "none" {
+		_, _ = conn.SimpleBind(&ldap.SimpleBindRequest{Username: dn, Password: pw, AllowEmptyPassword: true})
+		var herr error
+		switch h {
+		case "modpw":
+			mr := ldap.NewModifyRequest(dn, nil)
+			mr.Replace("password", []string{"newpw"})
+			herr = conn.Modify(mr)
+		case "del":
+			herr = conn.Del(ldap.NewDelRequest(dn, nil))
+		case "add":
+			ar := ldap.NewAddRequest(dn, nil)
+			ar.Attribute("password", []string{pw})
+			herr = conn.Add(ar)
+		}
+		if herr != nil {
+			return "error in the history before the bind (" + h + "): " + herr.Error()
+		}
+	}
 	_, err = conn.SimpleBind(&ldap.SimpleBindRequest{Username: dn, Password: pw, AllowEmptyPassword: true})
 	switch {
 	case err == nil:
@@ -133,6 +215,38 @@ func (tdLiveStream) Oracle(c Case, impl string) (bool, string, string) {
 	us := parseTdEntries(strings.TrimPrefix(f[2], "users="))
 	dn, pw := string(unhx(f[3])), string(unhx(f[4]))
 	ok := pw == "" && p["anon"] == "1"
+	switch p["hist"] {
+	case "modpw":
+		// the stored value is what the modify handler received: the BER-wrapped form (C01, C16)
+		for i, u := range us {
+			if u.DN == dn {
+				// the handler replaces the LAST attribute of that name (a missing one stays missing); the bind reads the first
+				last := -1
+				for j, a := range u.Attrs {
+					if a.Type == "password" {
+						last = j
+					}
+				}
+				if last >= 0 {
+					us[i].Attrs[last].Vals = []string{wrapOctet("newpw")}
+				}
+				break
+			}
+		}
+	case "del":
+		var rest []tdEntry
+		removed := false
+		for _, u := range us {
+			if u.DN == dn && !removed {
+				removed = true
+				continue
+			}
+			rest = append(rest, u)
+		}
+		us = rest
+	case "add":
+		us = append(us, tdEntry{DN: dn, Attrs: []Att{{Type: "password", Vals: []string{pw}}}})
+	}
 	for _, u := range us {
 		if u.DN != dn {
 			continue
